@@ -1,38 +1,3 @@
 (* WireDefs.v — the definitions the wire theorems are stated with (design/WIRE_THEOREMS.md):
-   exact / fails, lens_ok, keys_nodup, wf_dval.  Written by W3 as the statements of
-   PrefixProofs.v need them; W2 defines the same notions (the lead de-duplicates). *)
-From QV Require Export Wire Value WireLemmas.
-Local Open Scope N_scope.
-
-(* exact / fails come from WireLemmas.v (W1), with the statements of the design file *)
-
-(* every list and map of v has at most listValueMaxSize entries *)
-Fixpoint lens_ok (v : tval) : bool :=
-  match v with
-  | VList l => (N.of_nat (List.length l) <=? listValueMaxSize) && forallb lens_ok l
-  | VMap kvs => (N.of_nat (List.length kvs) <=? listValueMaxSize)
-                && forallb (fun kv => lens_ok (fst kv) && lens_ok (snd kv)) kvs
-  | VTup l => forallb lens_ok l
-  | VDyn _ v' => lens_ok v'
-  | _ => true
-  end.
-
-(* map keys pairwise distinct at every VMap, recursively *)
-Fixpoint keys_nodup (v : tval) : Prop :=
-  match v with
-  | VList l | VTup l => fold_right (fun x a => keys_nodup x /\ a) True l
-  | VMap kvs => NoDup (map fst kvs)
-                /\ fold_right (fun kv a => keys_nodup (fst kv) /\ keys_nodup (snd kv) /\ a) True kvs
-  | VDyn _ v' => keys_nodup v'
-  | _ => True
-  end.
-
-Inductive wf_dval : dval -> Prop :=
-| wf_num  : forall k b, b < 2 ^ (8 * N.of_nat (dkind_width k)) -> (k = KBool -> b <= 1) -> wf_dval (DNum k b)
-| wf_str  : forall s, N.of_nat (List.length s) <= MaxStringSize -> wf_dval (DStr s)
-| wf_list : forall l, N.of_nat (List.length l) <= listValueMaxSize -> Forall wf_dval l -> wf_dval (DList l)
-| wf_raw  : forall b, N.of_nat (List.length b) <= rawValueMaxSize -> wf_dval (DRaw b)
-| wf_void : wf_dval DVoid
-| wf_opq  : forall t v, good_ty t = true -> lookup (print t) dispatch_table = DOther -> print t <> "o"%string ->
-            N.of_nat (String.length (print t)) <= MaxStringSize -> has_ty v t = true ->
-            wf_dval (DOpaque (bytes_of_string (print t)) (spec_enc v)).
+   exact / fails (WireLemmas.v), lens_ok and keys_nodup (ReflProofs.v), wf_dval (ValueProofs.v). *)
+From QV Require Export Wire Value WireLemmas ReflProofs ValueProofs.
